@@ -469,6 +469,7 @@ fn e2e_path(tag: &str) -> String {
 /// [mx=0] [bn=<builder count overridden by the environment>] [bs=..] [start=<main|api-test|api-bench|args-..>] [arg=<case below the benchmark>] [nomark=1] [with=<siblings run along>]
 /// [maxs=<secs>] [mins=<secs>] [tvia=cli|env] [skipx=1] [vcost=<ticks per call on the virtual clock>] [timer=os|tsc] [prec=<precision ps>]
 /// [bskip=0|1 border=sf|mf: builder skip_ext_time] [cskip=bare|true|false|env-true|env-false] [vgen=<ticks per generated input>] [eskip=<effective skip, for the model>]
+/// [astep=<ticks per timestamp read> calib=1: real overhead calibration]
 /// [evlog=1: append the round sizes and the history read from the dumped event log]` (the
 /// effective values; `via` says where they are given).  Output: per thread
 /// count `t=T samples=.. iters=.. calls=<per thread index>` joined by `;`.
@@ -552,6 +553,13 @@ fn run_e2e(line: &str) -> String {
     }
     if get("vgen") != "-" {
         cmd.env("HX_VGEN", get("vgen"));
+    }
+    // `astep=<ticks per timestamp read>`, `calib=1`: no overhead override, the process calibrates for real
+    if get("astep") != "-" {
+        cmd.env("HX_AUTOSTEP", get("astep"));
+    }
+    if get("calib") == "1" {
+        cmd.env("HX_CALIB", "1");
     }
     if get("prec") != "-" {
         cmd.env("HX_PREC", get("prec"));
@@ -749,50 +757,61 @@ fn run_e2e(line: &str) -> String {
         // the crate's event log as dumped by hx-loop-e2e: `EV thread kind value` in logging order; per thread the
         // START (1) / END (2) readings and the calls (17) between them give every round and its size
         let t = threads.first().copied().unwrap_or(1);
+        let step: u64 = if get("astep") == "-" { 0 } else { get("astep").parse().unwrap_or(0) };
         let mut per: Vec<Vec<(u64, Option<u64>, u64)>> = vec![Vec::new(); t];
-        let mut starts0 = 0usize;
-        let mut ends0 = 0usize;
-        let mut evs: Vec<(usize, u8, u64)> = Vec::new();
+        let mut open: Vec<Option<(u64, u64)>> = vec![None; t]; // START read and not yet ended, calls so far
+        let mut init: Option<u64> = None; // the caller's START that is never ended: the time origin
+        let mut first: Option<u64> = None; // the caller's first reading of the run
+        let mut cal_end: Option<u64> = None; // the clock after the last calibration reading
+        let mut bad = false;
         for l in stderr.lines() {
             let tok: Vec<&str> = l.split(' ').collect();
-            if tok.len() == 4 && tok[0] == "EV" {
-                if let (Ok(th), Ok(k), Ok(a)) = (tok[1].parse::<usize>(), tok[2].parse::<u8>(), tok[3].parse::<u64>()) {
-                    if th == 0 && k == 1 {
-                        starts0 += 1;
-                    }
-                    if th == 0 && k == 2 {
-                        ends0 += 1;
-                    }
-                    evs.push((th, k, a));
-                }
+            if tok.len() != 4 || tok[0] != "EV" {
+                continue;
             }
-        }
-        // one START more than ENDs on the caller: the first is `initial_start`
-        let mut init: Option<u64> = None;
-        let mut skip_first = starts0 == ends0 + 1;
-        let mut bad = false;
-        for (th, k, a) in evs {
+            let (Ok(th), Ok(k), Ok(a)) = (tok[1].parse::<usize>(), tok[2].parse::<u8>(), tok[3].parse::<u64>()) else { continue };
             if th >= t {
                 bad = true;
                 continue;
             }
             match k {
-                1 if th == 0 && skip_first => {
-                    skip_first = false;
-                    init = Some(a);
+                1 => {
+                    if th == 0 && first.is_none() {
+                        first = Some(a);
+                    }
+                    if let Some((s0, _)) = open[th] {
+                        // the previous START was not a sample's: only the caller's origin reading may be
+                        if th == 0 && init.is_none() {
+                            init = Some(s0);
+                        } else {
+                            bad = true;
+                        }
+                    }
+                    open[th] = Some((a, 0));
                 }
-                1 => per[th].push((a, None, 0)),
-                2 => match per[th].last_mut() {
-                    Some(r) if r.1.is_none() => r.1 = Some(a),
-                    _ => bad = true,
+                2 => match open[th].take() {
+                    // a START/END pair without a call in between is a reading of the overhead calibration
+                    // (`Timer::bench_overheads` on its first use in the process), not a round
+                    Some((s0, 0)) if th == 0 && per[0].is_empty() => {
+                        let _ = s0;
+                        cal_end = Some(a + step);
+                    }
+                    Some((s0, calls)) => per[th].push((s0, Some(a), calls)),
+                    None => bad = true,
                 },
-                17 => match per[th].last_mut() {
-                    Some(r) if r.1.is_none() => r.2 += 1,
-                    _ => bad = true,
+                17 => match open[th].as_mut() {
+                    Some(o) => o.1 += 1,
+                    None => bad = true,
                 },
                 _ => {}
             }
         }
+        if open.iter().any(|o| o.is_some()) {
+            bad = true;
+        }
+        // the clock when the loop reached its time-origin / overhead-lookup lines, and what the calibration took
+        let t0 = first.unwrap_or(0);
+        let cal = cal_end.map_or(0, |e| e.saturating_sub(t0));
         let k = per[0].len();
         let sizes: Vec<u64> = per[0].iter().map(|r| r.2).collect();
         for p in &per {
@@ -810,10 +829,12 @@ fn run_e2e(line: &str) -> String {
             })
             .collect();
         line = format!(
-            "{line} sizes={}{} | init={} h={}",
+            "{line} sizes={}{} | init={} t0={} cal={} h={}",
             join(sizes),
             if bad { " badlog=1" } else { "" },
             init.map_or("-".to_string(), |i| i.to_string()),
+            t0,
+            cal,
             h.join(";")
         );
     }
@@ -841,7 +862,7 @@ fn run_fig(line: &str) -> String {
 fn dispatch(mode: &str, line: &str) -> String {
     match mode {
         "c03fig" => run_fig(line),
-        "c03e2e" | "c04cli" | "c04os" | "c19cli" | "c04ev" => run_e2e(line),
+        "c03e2e" | "c04cli" | "c04os" | "c19cli" | "c04ev" | "c04cal" => run_e2e(line),
         "c03" | "c04" | "c19" | "loop" => run_case(line),
         _ => panic!("unknown mode {mode}"),
     }
